@@ -463,6 +463,14 @@ class TextXVisitor(RRELVisitor):
             for cls in model_parser.metamodel:
                 cls._tx_peg_rule = _resolve_rule(cls._tx_peg_rule)
 
+        # The comment rule was handed to the parser before rule references
+        # were resolved. If its body is a single rule reference the parser
+        # still holds the unresolved reference.
+        if "Comment" in model_parser.metamodel:
+            model_parser.comments_model = model_parser.metamodel[
+                "Comment"
+            ]._tx_peg_rule
+
     def _determine_rule_types(self, metamodel):
         """Determine textX rule/metaclass types"""
 
